@@ -337,7 +337,6 @@ from __future__ import annotations
 
 from datetime import date
 from fractions import Fraction
-import math
 from numbers import Integral, Rational, Real
 from typing import (
     Any, Callable, Dict, Iterable, Optional, SupportsInt, Tuple, Type, Union,
@@ -377,6 +376,18 @@ RateSpecT = Tuple[Union['Currency', str], Union[Rational, float, str],
                   Rational]
 #: Dict type mappping a validity period and a currency to an exchange rate
 RateDictT = Dict[Tuple[ValidityT, Union['Currency', str]], 'ExchangeRate']
+
+
+def _magnitude(num: Rational) -> int:
+    """Return floor(log10(num)) for a rational number num > 0."""
+    n, d = num.numerator, num.denominator
+    magn = len(str(n)) - len(str(d))
+    if magn >= 0:
+        if n < d * 10 ** magn:
+            magn -= 1
+    elif n * 10 ** -magn < d:
+        magn -= 1
+    return magn
 
 
 class Currency(Unit):
@@ -664,9 +675,7 @@ class ExchangeRate:
             raise ValueError("Unit multiple must be an Integral.")
         if unit_multiple < 1:
             raise ValueError("Unit multiple must be >= 1.")
-        if isinstance(term_amount, Decimal):
-            magnitude_term_amount = term_amount.magnitude
-        else:
+        if not isinstance(term_amount, Decimal):
             try:
                 term_amount = Fraction(term_amount)
             except (ValueError, OverflowError):
@@ -675,15 +684,15 @@ class ExchangeRate:
             except TypeError:
                 raise TypeError(f"Rational number expected as term amount; "
                                 f"{type(term_amount)} given.")
-            if term_amount <= 0:
-                raise ValueError("Term amount must be >= 0.000001.")
-            magnitude_term_amount = int(math.floor(math.log10(term_amount)))
         if term_amount < Decimal("0.000001"):
             raise ValueError("Term amount must be >= 0.000001.")
         # adjust unit_multiple and term_amount so that
         # unit_multiple is a power to 10 and term_amount.magnitude >= -1
-        mult = Decimal(10) ** (unit_multiple.magnitude
-                               - min(0, magnitude_term_amount + 1))
+        exp10 = unit_multiple.magnitude
+        # equivalent amount for 10 ** exp10 units (the given unit multiple
+        # does not need to be a power to 10)
+        adj_amount = term_amount * Decimal(10) ** exp10 / unit_multiple
+        mult = Decimal(10) ** (exp10 - min(0, _magnitude(adj_amount) + 1))
         assert isinstance(mult, Decimal)
         self._unit_multiple = mult
         self._term_amount = Decimal(term_amount * mult / unit_multiple, 6)
